@@ -22,6 +22,56 @@ def do_replay(path):
     return 0
 
 
+ENGINE_B_PROPS = {"C02", "C03", "C09", "C20"}
+
+
+def engine_b_part(prop, tier):
+    """Run the MIR->SMT kernels of this property; replay sat witnesses natively."""
+    sys.path.insert(0, os.path.join(runner.ROOT, "mirsmt"))
+    import engine_b
+    viol, inc = [], []
+    try:
+        results, summ = engine_b.run_property(prop, tier)
+    except Exception as e:  # tool failure is never success
+        return {"engine_b": {"error": str(e)[:500]}}, [], [f"engine B failed: {str(e)[:300]}"], []
+    known = runner.load_known()
+    os.makedirs(runner.REPLAYS, exist_ok=True)
+    for r in results:
+        for msg in r["inconclusive"]:
+            inc.append(f"engineB kernel={r['kernel']} [{r['semantics']}]: {msg}")
+        for s_ in r["sat"]:
+            tag = f"engineB:{r['kernel']}:{'wrapping' if r['semantics'].startswith('wrapping') else 'checked'}"
+            k = next((k for k in known.get("known", []) if k["property"] == prop and __import__("re").fullmatch(k["harness"], tag)), None)
+            if k:
+                print(f"KNOWN-FINDING: property={prop} {k['what']} [key={k['key']}]")
+                continue
+            rep = s_.get("replay")
+            runs = []
+            reproduced = False
+            if rep:
+                name, draws = rep
+                vals = [list(int(v).to_bytes(8, "little")) for v in draws]
+                for profile in ("release", "debug"):
+                    out = runner.native_replay(name, vals, profile)
+                    runs.append(out)
+                    if (out["outcome"] == "ok" and "returned" in out.get("covered", "")) or (out["outcome"] == "panic" and "ORACLE" in out["detail"]) or out["outcome"] == "crash":
+                        reproduced = True
+            rpath = os.path.join(runner.REPLAYS, f"{prop}-{tag.replace(':', '-')}.json")
+            json.dump({"property": prop, "engine": "B (MIR->SMT)", "kernel": r["kernel"], "semantics": r["semantics"], "function": s_["function"],
+                       "path_kind": s_["path_kind"], "witness": s_["witness"], "solvers": s_["solvers"], "native_harness": rep[0] if rep else None,
+                       "harness": rep[0] if rep else None, "replays": [{"values": [list(int(v).to_bytes(8, "little")) for v in rep[1]]}] if rep else [],
+                       "runs": runs, "reproduced": reproduced}, open(rpath, "w"), indent=1)
+            line = f"engineB kernel={r['kernel']} [{r['semantics']}] {r['what']} :: witness {s_['witness']}"
+            if reproduced:
+                viol.append((line, rpath))
+            else:
+                inc.append(line + " -- witness did not reproduce natively (encoding suspect)")
+    cov = {"engine_b": {"summary": summ, "kernels": [{k: v for k, v in r.items() if k != "sat"} | {"sat": len(r["sat"])} for r in results],
+                        "bounds": "none on shapes or values (all 64-bit inputs); loop-free kernels only; callees outside the model list are havoc (may return anything or unwind)"}}
+    assume = ["Engine B: the MIR->SMT translation of the listed kernels is faithful (validated by replaying every sat witness natively); std callees are modelled as documented in mirsmt.py"]
+    return cov, viol, inc, assume
+
+
 def main(argv):
     if not argv:
         print(__doc__)
@@ -45,7 +95,10 @@ def main(argv):
         print(f"no harness registered for {prop}")
         return 2
     res, wall = runner.run_engine_a(prop, tier, seed, hs)
-    rc = runner.summarize(prop, tier, seed, res, wall, t0=t0)
+    extra_cov, extra_viol, extra_inc, extra_assume = {}, [], [], []
+    if prop in ENGINE_B_PROPS and not only:
+        extra_cov, extra_viol, extra_inc, extra_assume = engine_b_part(prop, tier)
+    rc = runner.summarize(prop, tier, seed, res, wall, extra_cov=extra_cov, extra_assume=extra_assume, t0=t0, extra_viol=extra_viol, extra_inconcl=extra_inc)
     n = len(res)
     holds = sum(1 for r in res.values() if r.status == "holds")
     print(f"[{prop} {tier}] harnesses={n} holds={holds} exit={rc} wall={time.time()-t0:.0f}s")
